@@ -176,7 +176,7 @@ func (e *Engine) VerifyFunction(name string) (res *UnitResult) {
 		if len(rets) > 1 {
 			for ri, r := range rets {
 				cov.Parts = append(cov.Parts, &Obligation{Name: fmt.Sprintf("%s@ret%d", cov.Name, ri), Kind: "cover", Guard: r.guard, Prop: c.True(),
-					NAssume: cov.NAssume, Src: cov.Src, Unit: u, Pos: cov.Pos, Cover: true})
+					NAssume: r.nAssume, Src: cov.Src, Unit: u, Pos: cov.Pos, Cover: true})
 			}
 		}
 	}
